@@ -3,6 +3,7 @@ package main
 import (
 	"encoding/json"
 	"fmt"
+	"math/big"
 	"runtime/debug"
 	"strings"
 	"sync"
@@ -255,22 +256,23 @@ type LevelObs struct {
 
 // Obs: everything observed and derived for one SnapCase.
 type Obs struct {
-	Case        *SnapCase
-	Set         *grid.Set
-	Req         grid.Request
-	Rings       [][]P // the tool's integer view of the input, as given
-	Norm        [][]P // shell ccw, holes cw
-	Valid       bool
-	AllInside   bool // every vertex inside the half-open extent
-	AllCovered  bool // every vertex inside what the integer grid covers
-	Got         map[int][]geom.Polygon
-	Panic       any
-	PanicText   string
-	PanicSite   string
-	Ticks       map[string]int
-	levels      map[int]*LevelObs
-	facts       map[int]*oracle.RouteFacts
-	MaxVertices int
+	Case           *SnapCase
+	Set            *grid.Set
+	Req            grid.Request
+	Rings          [][]P // the tool's integer view of the input, as given
+	Norm           [][]P // shell ccw, holes cw
+	Valid          bool
+	NearDegenerate bool // valid on the integer grid but with a ring area within the float->int conversion noise
+	AllInside      bool // every vertex inside the half-open extent
+	AllCovered     bool // every vertex inside what the integer grid covers
+	Got            map[int][]geom.Polygon
+	Panic          any
+	PanicText      string
+	PanicSite      string
+	Ticks          map[string]int
+	levels         map[int]*LevelObs
+	facts          map[int]*oracle.RouteFacts
+	MaxVertices    int
 }
 
 const centreTol = 64
@@ -310,6 +312,13 @@ func observeBudget(c *SnapCase, budget func(o *Obs)) (*Obs, error) {
 	}
 	o.MaxVertices = nv
 	o.Valid = oracle.ValidPolygon(o.Rings)
+	if o.Valid && !robustOrientation(o.Rings) {
+		// valid on the 1e-10 integer grid, but so thin that the float polygon actually passed to the tool may be
+		// degenerate or oriented differently (float -> int truncation moves every vertex by up to eps):
+		// not a polygon the word "valid" can be relied on for
+		o.Valid = false
+		o.NearDegenerate = true
+	}
 	if o.Valid {
 		o.Norm = oracle.Normalise(o.Rings)
 	} else {
@@ -337,6 +346,33 @@ func observeBudget(c *SnapCase, budget func(o *Obs)) (*Obs, error) {
 	}
 	verifhook.SetBudget(0)
 	return o, nil
+}
+
+// robustOrientation: every ring's exact doubled area exceeds 4*eps*perimeter(L1), eps = 1 + max|ordinate|*2^-52,
+// so that the sign of the area is the same for the float polygon and for its integer image.
+func robustOrientation(rings [][]P) bool {
+	for _, r := range rings {
+		var maxAbs, perim int64
+		for i, p := range r {
+			q := r[(i+1)%len(r)]
+			perim += abs64(q[0]-p[0]) + abs64(q[1]-p[1])
+			maxAbs = max(maxAbs, abs64(p[0]), abs64(p[1]))
+		}
+		eps := 1 + maxAbs>>52 + 1
+		thr := new(big.Int).Mul(big.NewInt(4*eps), big.NewInt(perim))
+		a := oracle.Area2(r)
+		if a.Abs(a).Cmp(thr) <= 0 {
+			return false
+		}
+	}
+	return true
+}
+
+func abs64(v int64) int64 {
+	if v < 0 {
+		return -v
+	}
+	return v
 }
 
 // normaliseLikeTool: for invalid rings the sign of the exact area still decides the direction where it is non-zero.
